@@ -14,9 +14,11 @@ package main
 // against the model, (d) Distance and the threshold predicates, (e) interiors.
 //
 // Float comparisons: distances of the SAME edge computed by the two paths are compared for
-// equality (same function, same arguments).  The maxError clause d_i <= scan_i + maxError is
-// asserted directly on the s1.Angle values with a slack of 1e-12 rad (the model's relation
-// is r <= t + e on distances; the angles are irrational, TLC cannot evaluate it).
+// equality (same function, same arguments).  The maxError clause d_i <= scan_i + maxError
+// (furthest: d_i >= scan_i - maxError) is asserted directly on the s1.ChordAngle values - the
+// arithmetic the library itself uses for distances and MaxError (distance.sub); it implies the
+// same relation between the angles.  Slack 1e-14.  (The model's relation is r <= t + e on
+// distances, EdgeQuery.tla ResultsComplete; TLC has no reals to evaluate it on floats.)
 
 import (
 	"encoding/json"
@@ -47,13 +49,14 @@ type c08Case struct {
 		V [][]int `json:"v"`
 		F int     `json:"f"`
 	} `json:"tgt"`
-	Far bool    `json:"far"`
-	Lt  []int   `json:"lt"`
-	Le  []int   `json:"le"`
-	Lc  []int   `json:"lc"`
-	Lim [][]int `json:"lim"`
-	Ins []int   `json:"ins"`
-	Fz  []int   `json:"fz"`
+	Far   bool    `json:"far"`
+	Sweep bool    `json:"sweep"` // sweep MaxError over the distance gaps of the scene (W3)
+	Lt    []int   `json:"lt"`
+	Le    []int   `json:"le"`
+	Lc    []int   `json:"lc"`
+	Lim   [][]int `json:"lim"`
+	Ins   []int   `json:"ins"`
+	Fz    []int   `json:"fz"`
 }
 
 type c08Res struct {
@@ -62,17 +65,31 @@ type c08Res struct {
 }
 
 type c08Opts struct {
-	mr  int    // 0 = unlimited
-	lim string // "inf", "mid" (from the model, or a third through the scan), "near" (the third best distance of the scan), "zero"
-	err int    // 0: none; k: the k-th permitted error of c08Errs
-	inc bool
+	mr     int    // 0 = unlimited
+	lim    string // "inf", "mid" (from the model, or a third through the scan), "near" (the third best distance of the scan), "zero"
+	err    int    // 0: none; k: the k-th permitted error of c08Errs; c08Sweep: errVal
+	inc    bool
+	errVal s1.ChordAngle
 }
 
 // permitted errors (radians) of the option combinations
 var c08Errs = []float64{0, 0.15, 0.6}
 
+const c08Sweep = 99
+
+// maxError returns the permitted error of the option set as the library's type.
+func (o c08Opts) maxError() s1.ChordAngle {
+	if o.err == c08Sweep {
+		return o.errVal
+	}
+	if o.err == 0 {
+		return 0
+	}
+	return s1.ChordAngleFromAngle(s1.Angle(c08Errs[o.err]))
+}
+
 func (o c08Opts) String() string {
-	return fmt.Sprintf("maxResults=%d limit=%s maxError=%grad includeInteriors=%v", o.mr, o.lim, c08Errs[o.err], o.inc)
+	return fmt.Sprintf("maxResults=%d limit=%s maxError=%.17g(chord^2)=%grad includeInteriors=%v", o.mr, o.lim, float64(o.maxError()), o.maxError().Angle().Radians(), o.inc)
 }
 
 type c08Variant struct {
@@ -146,6 +163,16 @@ func c08Pt(v []int) s2.Point {
 		return emb.Unit(emb.P3{v[0], v[1], v[2]})
 	case 4:
 		return c08Corner(v[0], v[1], v[2], v[3])
+	case 5:
+		// last entry 0: the grid corner, 2: the centre of the cell (i, j); 1, 3: their exact antipodes
+		p := c08Corner(v[0], v[1], v[2], v[3])
+		if v[4] >= 2 {
+			p = emb.FromFaceIJ(v[0], v[1], v[2], v[3]).Point()
+		}
+		if v[4]%2 == 1 {
+			return s2.Point{Vector: p.Mul(-1)}
+		}
+		return p
 	}
 	panic(fmt.Sprintf("c08: bad vertex %v", v))
 }
@@ -198,7 +225,7 @@ func (x *c08Ctx) options(o c08Opts, brute bool) *s2.EdgeQueryOptions {
 		q.DistanceLimit(x.zero())
 	}
 	if o.err > 0 {
-		q.MaxError(s1.ChordAngleFromAngle(s1.Angle(c08Errs[o.err])))
+		q.MaxError(o.maxError())
 	}
 	q.IncludeInteriors(o.inc)
 	q.UseBruteForce(brute)
@@ -417,17 +444,24 @@ func (x *c08Ctx) withinError(rs, exact []c08Res, o c08Opts) (bool, string) {
 	if len(rs) != len(exact) {
 		return false, fmt.Sprintf("%d results, exhaustive exact scan has %d", len(rs), len(exact))
 	}
-	e := s1.ChordAngleFromAngle(s1.Angle(c08Errs[o.err])).Angle().Radians()
+	e := float64(o.maxError())
 	for i := range rs {
-		a, b := rs[i].D.Angle().Radians(), exact[i].D.Angle().Radians()
+		r, t := float64(rs[i].D), float64(exact[i].D)
 		if x.far {
-			a, b = math.Pi-a, math.Pi-b
+			// furthest: the reported distance may be up to maxError BELOW the true maximum
+			if r < t-e-1e-14 {
+				return false, fmt.Sprintf("result %d at %.17g, true %d-th maximum %.17g, permitted error %.17g: off by %.3f x MaxError", i, r, i, t, e, (t-r)/e)
+			}
+			if r > t+1e-14 {
+				return false, fmt.Sprintf("result %d at %.17g exceeds the %d-th maximum %.17g of the exhaustive scan", i, r, i, t)
+			}
+			continue
 		}
-		if a > b+e+1e-12 {
-			return false, fmt.Sprintf("result %d at %.17g rad, optimum %.17g rad, permitted error %.17g rad", i, a, b, e)
+		if r > t+e+1e-14 {
+			return false, fmt.Sprintf("result %d at %.17g, true %d-th minimum %.17g, permitted error %.17g: off by %.3f x MaxError", i, r, i, t, e, (r-t)/e)
 		}
-		if a < b-1e-12 {
-			return false, fmt.Sprintf("result %d at %.17g rad is better than the optimum %.17g rad of the exhaustive scan", i, a, b)
+		if r < t-1e-14 {
+			return false, fmt.Sprintf("result %d at %.17g is below the %d-th minimum %.17g of the exhaustive scan", i, r, i, t)
 		}
 	}
 	return true, ""
@@ -589,7 +623,7 @@ func (x *c08Ctx) runVariant(v c08Variant) {
 	for _, inc := range incs {
 		for _, lim := range lims {
 			for _, mr := range []int{1, 2, 3, 0} {
-				o0 := c08Opts{mr, lim, 0, inc}
+				o0 := c08Opts{mr, lim, 0, inc, 0}
 				exact, _ := x.find(v, o0, true) // exhaustive scan, no permitted error
 				x.wellFormed(exact, o0, v, "brute")
 				cl := "all"
@@ -603,7 +637,7 @@ func (x *c08Ctx) runVariant(v c08Variant) {
 				}
 				for ei := range c08Errs {
 					er := ei > 0
-					o := c08Opts{mr, lim, ei, inc}
+					o := c08Opts{mr, lim, ei, inc, 0}
 					if er {
 						// the scan with a permitted error is itself only approximate; it visits the
 						// shapes in Go's random map order, so it is repeated a few times
@@ -675,7 +709,7 @@ func (x *c08Ctx) runVariant(v c08Variant) {
 				}
 			}
 			// Distance() is the first result
-			o1 := c08Opts{1, lim, 0, inc}
+			o1 := c08Opts{1, lim, 0, inc, 0}
 			first, _ := x.find(v, o1, true)
 			want := x.infinity()
 			if len(first) > 0 {
@@ -688,7 +722,7 @@ func (x *c08Ctx) runVariant(v c08Variant) {
 				} else if x.covBad || x.capBad {
 					continue // Distance() is a maxResults = 1 search
 				}
-				q := x.query(c08Opts{0, lim, 0, inc}, brute)
+				q := x.query(c08Opts{0, lim, 0, inc, 0}, brute)
 				t := v.mk()
 				if brute {
 					s2.VerifTargetSetUseBruteForce(t, true)
@@ -722,7 +756,7 @@ func (x *c08Ctx) faceZero(rs []c08Res, v c08Variant, side string) {
 
 // pred evaluates the threshold predicate of the query kind with a fresh query.
 func (x *c08Ctx) pred(v c08Variant, inc, brute, conservative bool, limit s1.ChordAngle) bool {
-	q := x.query(c08Opts{0, "inf", 0, inc}, brute)
+	q := x.query(c08Opts{0, "inf", 0, inc, 0}, brute)
 	t := v.mk()
 	if brute {
 		s2.VerifTargetSetUseBruteForce(t, true)
@@ -745,7 +779,7 @@ func (x *c08Ctx) predicates(v c08Variant, inc bool) {
 	if x.far {
 		name, cname = "IsDistanceGreater", "IsConservativeDistanceGreaterOrEqual"
 	}
-	best, _ := x.find(v, c08Opts{1, "inf", 0, inc}, true)
+	best, _ := x.find(v, c08Opts{1, "inf", 0, inc, 0}, true)
 	for _, brute := range []bool{true, false} {
 		side := "opt"
 		if brute {
@@ -754,7 +788,7 @@ func (x *c08Ctx) predicates(v c08Variant, inc bool) {
 			continue
 		}
 		if x.hasMid {
-			within, _ := x.find(v, c08Opts{0, "mid", 0, inc}, true)
+			within, _ := x.find(v, c08Opts{0, "mid", 0, inc, 0}, true)
 			got := x.pred(v, inc, brute, false, x.mid)
 			if got != (len(within) > 0) {
 				x.fail("eq/predicate/"+kn+"/"+side, "%s(limit) = %v but the exhaustive scan finds %d edges within the limit %.17g (interiors %v)", name, got, len(within), float64(x.mid), inc)
@@ -814,6 +848,82 @@ func (x *c08Ctx) predicates(v c08Variant, inc bool) {
 					x.fail("eq/predicate/"+kn+"/"+side, "%s(%.17g) = true but Distance() = %.17g (interiors %v)", name, float64(hi), d, inc)
 				}
 			}
+		}
+	}
+}
+
+// sweep: the maxError relation for permitted errors chosen relative to the distance gaps of
+// the scene (gap < e < 2 gap, ...), maxResults 1 and 2, unlimited search.  The gaps are read
+// from exhaustive scans (of the whole target and of each of its points); the float values
+// only select the inputs, the verdict is withinError against the exhaustive exact scan.
+func (x *c08Ctx) sweep(v c08Variant, single []c08Variant) {
+	kn := x.kindName() + "/" + v.kind
+	all, _ := x.find(v, c08Opts{0, "inf", 0, false, 0}, true)
+	if len(all) < 2 {
+		return
+	}
+	abs := func(a float64) float64 { return math.Abs(a) }
+	var g2, g1 []float64
+	for k := 1; k < len(all) && len(g2) < 4; k++ {
+		if d := abs(float64(all[k].D - all[0].D)); d > 1e-12 && (len(g2) == 0 || d > g2[len(g2)-1]*1.0000001) {
+			g2 = append(g2, d)
+		}
+	}
+	// best distance of every single target point
+	var best []float64
+	for _, sv := range single {
+		if r, _ := x.find(sv, c08Opts{1, "inf", 0, false, 0}, true); len(r) > 0 {
+			best = append(best, float64(r[0].D))
+		}
+	}
+	g1 = append(g1, 0)
+	for i := range best {
+		for j := i + 1; j < len(best); j++ {
+			if d := abs(best[i] - best[j]); d > 1e-12 {
+				g1 = append(g1, d)
+			}
+		}
+	}
+	seen := map[float64]bool{}
+	var errs []float64
+	add := func(e float64) {
+		if e > 1e-12 && e < 4 && !seen[e] && len(errs) < 40 {
+			seen[e] = true
+			errs = append(errs, e)
+		}
+	}
+	for _, b := range g2 {
+		for _, a := range g1 {
+			if a < b {
+				add((math.Max(a, b-a) + b) / 2) // a < e < b <= a + e
+			}
+		}
+		for _, f := range []float64{0.55, 0.75, 0.95, 1.05, 1.5, 2.5} {
+			add(f * b)
+		}
+	}
+	for _, e := range errs {
+		for _, mr := range []int{1, 2} {
+			exact := all
+			if len(exact) > mr {
+				exact = exact[:mr]
+			}
+			o := c08Opts{mr, "inf", c08Sweep, false, s1.ChordAngle(e)}
+			for rep := 0; rep < 2; rep++ {
+				if b, _ := x.find(v, o, true); x.wellFormed(b, o, v, "brute") {
+					if ok, why := x.withinError(b, exact, o); !ok {
+						x.fail("eq/maxerror-sweep/"+kn+"/brute", "%s, %v, results %s", why, o, c08Show(b))
+					}
+				}
+			}
+			opt, _ := x.find(v, o, false)
+			if x.covBad || x.capBad || !x.wellFormed(opt, o, v, "opt") {
+				continue
+			}
+			if ok, why := x.withinError(opt, exact, o); !ok {
+				x.fail("eq/maxerror-sweep/"+kn+"/opt", "optimized search: %s, %v, optimized %s, exhaustive exact scan %s", why, o, c08Show(opt), c08Show(exact))
+			}
+			x.o.Count("maxerror_sweep_queries")
 		}
 	}
 }
@@ -944,13 +1054,48 @@ func opEQ(raw json.RawMessage, o *Out) {
 			ps = append(ps, emb.FromFaceIJ(v[0], v[1], v[2], v[3]).Point())
 		}
 		variants = []c08Variant{{"idx", false, mkIndex(cloud(ps)), ps}}
+		if len(ps) <= 3 {
+			var singles []c08Variant
+			for _, p := range ps {
+				singles = append(singles, c08Variant{"pt", false, mkPoint(p), []s2.Point{p}})
+			}
+			sv := variants[0]
+			x.checkCapBound(sv)
+			x.sweep(sv, singles)
+			rv := c08Variant{"idx", false, mkIndex(cloud([]s2.Point{ps[len(ps)-1], ps[0]})), []s2.Point{ps[len(ps)-1], ps[0]}}
+			x.checkCapBound(rv)
+			x.sweep(rv, singles)
+		}
 	case "edge":
 		variants = []c08Variant{
 			{"edge", true, mkEdge(tp[0], tp[1]), tp},
 			{"idx", true, mkIndex(line(tp)), tp},
 		}
 	case "cloud":
-		variants = []c08Variant{{"idx", true, mkIndex(cloud(tp)), tp}}
+		variants = []c08Variant{{"idx", c.Lt != nil, mkIndex(cloud(tp)), tp}}
+		if c.Sweep || len(tp) <= 3 {
+			// the order of the target's points decides through which of them a bound is measured
+			var singles []c08Variant
+			for _, p := range tp {
+				singles = append(singles, c08Variant{"pt", false, mkPoint(p), []s2.Point{p}})
+			}
+			perms := [][]s2.Point{tp}
+			if len(tp) == 2 {
+				perms = append(perms, []s2.Point{tp[1], tp[0]})
+			} else if len(tp) == 3 {
+				perms = append(perms, []s2.Point{tp[1], tp[0], tp[2]}, []s2.Point{tp[2], tp[1], tp[0]}, []s2.Point{tp[0], tp[2], tp[1]})
+			}
+			if c.Sweep && len(tp) > 1 {
+				for _, p := range tp { // index targets of one point
+					perms = append(perms, []s2.Point{p})
+				}
+			}
+			for _, pp := range perms {
+				sv := c08Variant{"idx", false, mkIndex(cloud(pp)), pp}
+				x.checkCapBound(sv)
+				x.sweep(sv, singles)
+			}
+		}
 	case "pline":
 		variants = []c08Variant{{"idx", true, mkIndex(line(tp)), tp}}
 	case "face":
@@ -962,7 +1107,7 @@ func opEQ(raw json.RawMessage, o *Out) {
 		// the distance limit "mid": from the model (two lattice points) or, where the model
 		// predicts no distances, a third of the way through the exhaustive scan
 		x.hasMid, x.hasNear = false, false
-		all, _ := x.find(v, c08Opts{0, "inf", 0, false}, true)
+		all, _ := x.find(v, c08Opts{0, "inf", 0, false, 0}, true)
 		if len(c.Lim) == 2 {
 			x.mid = s2.ChordAngleBetweenPoints(c08Pt(c.Lim[0]), c08Pt(c.Lim[1]))
 			x.hasMid = true
